@@ -130,6 +130,8 @@ impl Packet {
                 p.extend_from_slice(&w.word);
                 p.extend_from_slice(&[0u8; 6]);
             }
+            // (never in conforming data: the excess-padding fault also applies to this format)
+            p.extend(std::iter::repeat(0xFF).take(self.padding));
         } else {
             for w in &self.words {
                 p.extend_from_slice(&w.word);
